@@ -16,7 +16,7 @@ import (
 var profC12 = Profile{
 	MaxProcs: 5, MaxItems: 3, Bufsizes: []int{0, 1, 2}, MaxSlots: 4,
 	Params: true, MultiOut: true, FanIn: true, FanOut: true, NoPort: true, Custom: true,
-	Subdirs: true, Cores: true, TwoSources: true, Zip: true, ParamSrc: true, Taggers: true, Joins: true, Sinkless: true,
+	Subdirs: true, Cores: true, TwoSources: true, Zip: true, ParamSrc: true, Taggers: true, Joins: true, Sinkless: true, EmptyOuts: true,
 }
 
 func stripLine(site string) string {
